@@ -109,6 +109,12 @@ func (d *DepOracle) walk(ctx *depCtx, inherited map[string]bool, preflights map[
 				for k := range pf {
 					deps[k] = true
 				}
+			} else {
+				// a preflight call does not wait for its sibling preflights, but it does wait for the
+				// preflight calls of every ENCLOSING pipeline
+				for k := range preflights {
+					deps[k] = true
+				}
 			}
 			delete(deps, p)
 			d.Deps[p] = deps
